@@ -192,7 +192,10 @@ fn eval_floor<'a>(args: &[Option<Value<'a>>]) -> Option<Value<'a>> {
 
 fn eval_round<'a>(args: &[Option<Value<'a>>]) -> Option<Value<'a>> {
     let val = get_float(args.first()?)?;
-    let decimals = args.get(1).and_then(get_int).unwrap_or(0);
+    let decimals = match args.get(1) {
+        None => 0,
+        Some(d) => get_int(d)?,
+    };
 
     if let (Some(Some(Value::Int(n))), true) = (args.first(), decimals >= 0) {
         // an integer has no decimals to round: keep it exact instead of going through f64
@@ -211,7 +214,10 @@ fn eval_round<'a>(args: &[Option<Value<'a>>]) -> Option<Value<'a>> {
 
 fn eval_truncate<'a>(args: &[Option<Value<'a>>]) -> Option<Value<'a>> {
     let val = get_float(args.first()?)?;
-    let decimals = args.get(1).and_then(get_int).unwrap_or(0);
+    let decimals = match args.get(1) {
+        None => 0,
+        Some(d) => get_int(d)?,
+    };
 
     if let (Some(Some(Value::Int(n))), true) = (args.first(), decimals >= 0) {
         return Some(Value::Int(*n));
